@@ -7,9 +7,9 @@ import LexVerif.Proof.ParseNumberC11SepSpecial
 
 * `partial_prefix_sep_number`: every format of the class `SepCfg` — release build with the `format` feature, a
   digit-separator byte, **any** of the 14 separator predicates (or none) independently on integer, fraction and exponent
-  (I+T+C and I+L+C included: their defects accept more, but consistently before and after the cut), base suffix allowed,
-  **no base prefix** (not treated), mantissa digits required — and every input and options whose punctuation does not
-  collide with the separator. The only exclusion inside the class is the exact shape of the open defect
+  (I+T+C and I+L+C included: their defects accept more, but consistently before and after the cut), base prefix and
+  base suffix allowed, mantissa digits required — and every input and options whose punctuation does not collide with
+  the separator. The only exclusion inside the class is the exact shape of the open defect
   "exponent `is_digit` uses the mantissa radix": an exponent predicate that can ask for a digit after the separator
   (i, il, ic; ilc at the first exponent position) needs `mantissa_radix ≤ exponent_radix`.
 * `witness_sep_hex_i / _il / _ic`: the exclusion is exact for i, il, ic — decided counter-examples `1p1_a`
@@ -81,6 +81,20 @@ so no radix condition -/
 example : SepCfg ⟨featsRadixFormat, fmtHexUniLT, false⟩ { exp := 112 } := by
   apply sepCfg_of _ { exp := 112 } ⟨rfl, fun k => by cases k <;> decide +kernel⟩ <;> decide +kernel
 
+/-- hex float with base prefix `x` and L+T separators (`c13_hex_uni_lt` + prefix): `0x_1_.8p1_z` → count 10 -/
+def fmtHexUniLTPrefix : Format := ⟨0xa0210007800005f000001f80000000c⟩
+
+example : SepCfg ⟨featsRadixFormat, fmtHexUniLTPrefix, false⟩ { exp := 112 } := by
+  apply sepCfg_of _ { exp := 112 } ⟨rfl, fun k => by cases k <;> decide +kernel⟩ <;> decide +kernel
+
+example : fmtHexUniLTPrefix.basePrefix = 120 ∧ formatError featsRadixFormat fmtHexUniLTPrefix = none ∧
+    parseFloatSyntax ⟨featsRadixFormat, fmtHexUniLTPrefix, false⟩ { exp := 112 } true
+        [48, 120, 95, 49, 95, 46, 56, 112, 49, 95, 122]
+      = .ok (.number ⟨24, -3, false, false, [95, 49, 95], some [56], 1⟩ 10) ∧
+    parseFloatSyntax ⟨featsRadixFormat, fmtHexUniLTPrefix, false⟩ { exp := 112 } false
+        [48, 120, 95, 49, 95, 46, 56, 112, 49, 95]
+      = .ok (.number ⟨24, -3, false, false, [95, 49, 95], some [56], 1⟩ 10) := by decide +kernel
+
 /-- I+L+T+C: `1__2__x` → count 6 (the cursor stands after the trailing separators), `1__2__` complete → same number -/
 example : parseFloatSyntax ⟨featsRadixFormat, fmtUniILTC, false⟩ {} true [49, 95, 95, 50, 95, 95, 120]
       = .ok (.number ⟨12, 0, false, false, [49, 95, 95, 50, 95, 95], none, 0⟩ 6) ∧
@@ -125,25 +139,27 @@ theorem witness_sep_hex_ic :
 /-! ## API level -/
 
 /-- **C11 (B) for `parse_partial_with_options` / `parse_with_options`, number results, separator formats**: validated
-format and options (release build, `format` feature), a separator byte, no base prefix, mantissa digits required,
-the radix condition for digit-seeking exponent predicates, and the separator is not the other ASCII case of the exponent
-or base-suffix character (the validation compares these bytes exactly, the parser folds case). -/
+format and options (release build, `format` feature), a separator byte, mantissa digits required, the radix condition
+for digit-seeking exponent predicates, and the separator is not the other ASCII case of the exponent, base-prefix or
+base-suffix character (the validation compares these bytes exactly, the parser folds case). -/
 theorem partial_prefix_sep_model_number (feats : Features) (fmt : Format) (o : POpts) (f : Fmt) (s : List Nat)
     (x : Number) (cnt : Nat)
     (hfeat : feats.radix = true → feats.powerOfTwo = true) (hf : feats.format = true)
     (hm : (⟨feats, fmt, false⟩ : Cfg).requiredMantissaDigits = true)
     (h1 : optionsError o = none) (h2 : formatError feats fmt = none)
     (h3 : isValidOptionsPunctuation feats fmt o.exp o.dp = true) (h4 : checkRadix feats fmt = true)
-    (hsep : fmt.digitSeparator ≠ 0) (hnp : fmt.basePrefix = 0)
+    (hsep : fmt.digitSeparator ≠ 0)
     (hexp : digitLookB ⟨feats, fmt, false⟩ .exponent = true → fmt.mantissaRadix ≤ fmt.exponentRadix)
     (hexpc : matchByte o.exp ((⟨feats, fmt, false⟩ : Cfg).caseSensitiveExponent && feats.format)
       (some fmt.digitSeparator) = false)
     (hsuf : matchByte (⟨feats, fmt, false⟩ : Cfg).baseSuffix (⟨feats, fmt, false⟩ : Cfg).caseSensitiveBaseSuffix
       (some fmt.digitSeparator) = false)
+    (hpre : matchByte (⟨feats, fmt, false⟩ : Cfg).basePrefix (⟨feats, fmt, false⟩ : Cfg).caseSensitiveBasePrefix
+      (some fmt.digitSeparator) = false)
     (h : parseFloatSyntax ⟨feats, fmt, false⟩ o true s = .ok (.number x cnt)) :
     parseFloatModel feats fmt o true f s = renderParsed ⟨feats, fmt, false⟩ f true (.number x cnt) ∧
     parseFloatModel feats fmt o false f (s.take cnt) = renderParsed ⟨feats, fmt, false⟩ f false (.number x cnt) := by
-  have H := sepCfg_of_valid feats fmt o hfeat hf h1 h2 h3 hsep hnp hexp hexpc hsuf
+  have H := sepCfg_of_valid feats fmt o hfeat hf h1 h2 h3 hsep hexp hexpc hsuf hpre
   have hc := partial_prefix_sep_number ⟨feats, fmt, false⟩ o s x cnt H hm h
   rw [parseFloatModel_of_valid feats fmt o true f s false h1 h2 h3 h4,
     parseFloatModel_of_valid feats fmt o false f _ false h1 h2 h3 h4, h, hc]
@@ -152,7 +168,7 @@ theorem partial_prefix_sep_model_number (feats : Features) (fmt : Format) (o : P
 /-- non-vacuity of the API-level hypotheses: `c13_dec_uni_itc` with default options -/
 example : formatError featsRadixFormat fmtUniITC = none ∧ optionsError {} = none ∧
     isValidOptionsPunctuation featsRadixFormat fmtUniITC 101 46 = true ∧ checkRadix featsRadixFormat fmtUniITC = true ∧
-    fmtUniITC.digitSeparator ≠ 0 ∧ fmtUniITC.basePrefix = 0 ∧
+    fmtUniITC.digitSeparator ≠ 0 ∧
     (⟨featsRadixFormat, fmtUniITC, false⟩ : Cfg).requiredMantissaDigits = true ∧
     matchByte 101 ((⟨featsRadixFormat, fmtUniITC, false⟩ : Cfg).caseSensitiveExponent && true) (some fmtUniITC.digitSeparator) = false ∧
     parseFloatModel featsRadixFormat fmtUniITC {} true f64 [49, 95, 95, 50, 46, 53, 95, 120] = "ok 4029000000000000 7" ∧
@@ -231,18 +247,20 @@ theorem partial_prefix_sep_model (feats : Features) (fmt : Format) (o : POpts) (
     (hm : (⟨feats, fmt, false⟩ : Cfg).requiredMantissaDigits = true)
     (h1 : optionsError o = none) (h2 : formatError feats fmt = none)
     (h3 : isValidOptionsPunctuation feats fmt o.exp o.dp = true) (h4 : checkRadix feats fmt = true)
-    (hsep : fmt.digitSeparator ≠ 0) (hnp : fmt.basePrefix = 0)
+    (hsep : fmt.digitSeparator ≠ 0)
     (hexp : digitLookB ⟨feats, fmt, false⟩ .exponent = true → fmt.mantissaRadix ≤ fmt.exponentRadix)
     (hexpc : matchByte o.exp ((⟨feats, fmt, false⟩ : Cfg).caseSensitiveExponent && feats.format)
       (some fmt.digitSeparator) = false)
     (hsuf : matchByte (⟨feats, fmt, false⟩ : Cfg).baseSuffix (⟨feats, fmt, false⟩ : Cfg).caseSensitiveBaseSuffix
+      (some fmt.digitSeparator) = false)
+    (hpre : matchByte (⟨feats, fmt, false⟩ : Cfg).basePrefix (⟨feats, fmt, false⟩ : Cfg).caseSensitiveBasePrefix
       (some fmt.digitSeparator) = false)
     (hr18 : fmt.mantissaRadix ≤ 18) (hdp : o.dp ≠ 73 ∧ o.dp ≠ 105 ∧ o.dp ≠ 78 ∧ o.dp ≠ 110)
     (hsl : fmt.digitSeparator ≠ 73 ∧ fmt.digitSeparator ≠ 105 ∧ fmt.digitSeparator ≠ 78 ∧ fmt.digitSeparator ≠ 110)
     (h : parseFloatSyntax ⟨feats, fmt, false⟩ o true s = .ok q) :
     parseFloatModel feats fmt o true f s = renderParsed ⟨feats, fmt, false⟩ f true q ∧
     parseFloatModel feats fmt o false f (s.take (pcount q)) = renderParsed ⟨feats, fmt, false⟩ f false q := by
-  have H := sepCfg_of_valid feats fmt o hfeat hf h1 h2 h3 hsep hnp hexp hexpc hsuf
+  have H := sepCfg_of_valid feats fmt o hfeat hf h1 h2 h3 hsep hexp hexpc hsuf hpre
   have hh : SpecialHeadsOK ⟨feats, fmt, false⟩ o := specialHeadsOK_of_valid _ _ h1 hr18 hdp
   have hhs : SpecialHeadsNoSep ⟨feats, fmt, false⟩ o :=
     specialHeadsNoSep_of_valid _ _ h1 (by simpa [Cfg.digitSeparator, hf] using hsl)
@@ -255,8 +273,8 @@ theorem partial_prefix_sep_model (feats : Features) (fmt : Format) (o : POpts) (
 
 /-- the statement for every validated call with a `format` build: beyond validity only the two necessary exclusions
 (the radix condition — `witness_sep_hex_i`; special heads that are digits / the decimal point — `witness_B_radix24_nan`)
-and required mantissa digits (`witness_B_nodigits_sign`). Open: formats with a base prefix AND a separator byte;
-a separator that is the other ASCII case of the exponent or base-suffix character, or one of `I i N n` -/
+and required mantissa digits (`witness_B_nodigits_sign`). Open: a separator that is the other ASCII case of the
+exponent, base-prefix or base-suffix character, or one of `I i N n` -/
 def partial_prefix_sep_full : Prop :=
   ∀ (feats : Features) (fmt : Format) (o : POpts) (s : List Nat) (p : Parsed),
     (feats.radix = true → feats.powerOfTwo = true) → feats.format = true →
@@ -268,8 +286,8 @@ def partial_prefix_sep_full : Prop :=
     parseFloatSyntax ⟨feats, fmt, false⟩ o true s = .ok p →
     parseFloatSyntax ⟨feats, fmt, false⟩ o false (s.take (pcount p)) = .ok p
 
-/-- proved part: a separator byte (without one: `partial_prefix_contiguous`), no base prefix, and a separator that does
-not collide (up to ASCII case) with the exponent character, the base suffix or the heads of the special strings -/
+/-- proved part: a separator byte (without one: `partial_prefix_contiguous`) that does not collide (up to ASCII case)
+with the exponent character, the base prefix / suffix or the heads of the special strings -/
 theorem partial_prefix_sep_full_partial (feats : Features) (fmt : Format) (o : POpts) (s : List Nat) (p : Parsed)
     (hfeat : feats.radix = true → feats.powerOfTwo = true) (hf : feats.format = true)
     (h1 : optionsError o = none) (h2 : formatError feats fmt = none)
@@ -277,15 +295,17 @@ theorem partial_prefix_sep_full_partial (feats : Features) (fmt : Format) (o : P
     (hm : (⟨feats, fmt, false⟩ : Cfg).requiredMantissaDigits = true)
     (hexp : digitLookB ⟨feats, fmt, false⟩ .exponent = true → fmt.mantissaRadix ≤ fmt.exponentRadix)
     (hh : SpecialHeadsOK ⟨feats, fmt, false⟩ o)
-    (hsep : fmt.digitSeparator ≠ 0) (hnp : fmt.basePrefix = 0)
+    (hsep : fmt.digitSeparator ≠ 0)
     (hexpc : matchByte o.exp ((⟨feats, fmt, false⟩ : Cfg).caseSensitiveExponent && feats.format)
       (some fmt.digitSeparator) = false)
     (hsuf : matchByte (⟨feats, fmt, false⟩ : Cfg).baseSuffix (⟨feats, fmt, false⟩ : Cfg).caseSensitiveBaseSuffix
       (some fmt.digitSeparator) = false)
+    (hpre : matchByte (⟨feats, fmt, false⟩ : Cfg).basePrefix (⟨feats, fmt, false⟩ : Cfg).caseSensitiveBasePrefix
+      (some fmt.digitSeparator) = false)
     (hsl : fmt.digitSeparator ≠ 73 ∧ fmt.digitSeparator ≠ 105 ∧ fmt.digitSeparator ≠ 78 ∧ fmt.digitSeparator ≠ 110)
     (h : parseFloatSyntax ⟨feats, fmt, false⟩ o true s = .ok p) :
     parseFloatSyntax ⟨feats, fmt, false⟩ o false (s.take (pcount p)) = .ok p :=
-  partial_prefix_sep _ o s p (sepCfg_of_valid feats fmt o hfeat hf h1 h2 h3 hsep hnp hexp hexpc hsuf) hm hh
+  partial_prefix_sep _ o s p (sepCfg_of_valid feats fmt o hfeat hf h1 h2 h3 hsep hexp hexpc hsuf hpre) hm hh
     (specialHeadsNoSep_of_valid _ _ h1 (by simpa [Cfg.digitSeparator, hf] using hsl)) h
 
 end LexVerif.Props.C11
